@@ -10,7 +10,7 @@ package main
 // F with a lendable parameter p that reaches such a goroutine the table gets the pair
 //
 //     R arg:<F>.<p> in <spawning function>/go under {} live
-//     W arg:<F>.<p> in caller:owner         under {} live
+//     W arg:<F>.<p> in caller:owner         under {} live, single-goroutine role (the owner is one goroutine)
 //
 // which conflicts and is unordered: the discipline fails until the goroutine is given a copy (proto.Clone,
 // a formatted string, a cloned slice) made on the calling goroutine.
@@ -243,6 +243,7 @@ func (pa *pkgAn) lentRows() (rows []*Row, notes []string) {
 			})
 		}
 	}
+	ownerRole := 2000 // the owner of one argument is one goroutine: its writes are ordered with each other
 	for _, fn := range fns {
 		if !fn.Exported() {
 			continue
@@ -255,7 +256,8 @@ func (pa *pkgAn) lentRows() (rows []*Row, notes []string) {
 			field := "arg:" + pa.label(fn) + "." + p.name
 			rows = append(rows,
 				&Row{Field: field, Kind: "R", Fn: hit.spawner + "/go", Phase: "live", Pos: []string{hit.pos}},
-				&Row{Field: field, Kind: "W", Fn: "caller:owner", Phase: "live", Pos: []string{pa.pos(pa.decls[fn].Name)}})
+				&Row{Field: field, Kind: "W", Fn: "caller:owner", Phase: "live", Role: ownerRole, Pos: []string{pa.pos(pa.decls[fn].Name)}})
+			ownerRole++
 			notes = append(notes, "caller-owned argument read on a goroutine the callee starts: "+field+" @ "+hit.pos)
 		}
 	}
